@@ -160,8 +160,8 @@ def variants(name, canon, rng, count, only=None):  # pylint: disable=too-many-br
                     used.add(MULTI_SPACE)
             else:
                 if OWS in chosen:
-                    before = rng.choice(('', ' ', '  ', '\t')) if sep != ',' or True else ''
-                    after = rng.choice(('', ' ', '  ', ' \t '))
+                    before = rng.choice(('', ' ', '  ', '\t', ' \t', '\t ', '\t\t', ' \t '))
+                    after = rng.choice(('', ' ', '  ', ' \t ', '\t', '\t ', ' \t'))
                     if (before, after) != ('', ' '):
                         used.add(OWS)
                     separator = before + sep + after
